@@ -51,6 +51,13 @@ class Ctx:
             self._cg = CallGraph(self.repo)
         return self._cg
 
+    @property
+    def effects(self):
+        if getattr(self, "_effects", None) is None:
+            from .effects import Effects
+            self._effects = Effects(self)
+        return self._effects
+
     def cfg(self, f: FunctionInfo):
         if f not in self._cfgs:
             from .cfg import CFG
